@@ -4,6 +4,7 @@
 package varmq
 
 //@ package varmq
+//@ type metrics: atomic submitted, completed, successful, failed
 
 // ---------------------------------------------------------------- config.go
 // withSafeConcurrency: n < 1 means "number of CPUs"; otherwise n itself -- and never 0 (a worker with limit 0 would never dispatch).
